@@ -112,8 +112,12 @@ pub struct PoolModel {
     pub links: BTreeMap<Bid, Bid>,
     /// Blocks registered for safe-to-notar purposes (block -> parent).
     pub registered: BTreeMap<Bid, Bid>,
-    /// Registered blocks whose parent certificate was held at some point after registration.
+    /// Registered blocks whose parent certificate was held at the end of some step (the signal is
+    /// then required once the remaining conditions hold).
     pub parent_certified: BTreeSet<Bid>,
+    /// ... or held at some point within a step, possibly before that step pruned the parent's slot
+    /// (the signal is then allowed, not required).
+    pub parent_certified_weak: BTreeSet<Bid>,
     pub decided: BTreeMap<u64, Decided>,
     pub highest_final: u64,
     pub watermark: u64,
@@ -136,6 +140,7 @@ impl PoolModel {
             links: BTreeMap::new(),
             registered: BTreeMap::new(),
             parent_certified: BTreeSet::new(),
+            parent_certified_weak: BTreeSet::new(),
             decided,
             highest_final: 0,
             watermark: 0,
@@ -294,6 +299,10 @@ impl PoolModel {
     // ---------------------------------------------------------------- C06 predicates
 
     fn s2n_holds(&self, slot: u64, h: &H32) -> bool {
+        self.s2n_holds_with(slot, h, false)
+    }
+
+    fn s2n_holds_with(&self, slot: u64, h: &H32, weak: bool) -> bool {
         let Some(s) = self.slots.get(&slot) else { return false };
         // own initial vote exists and is not notar(b)
         let own_notar = s.notar.get(&self.own);
@@ -309,7 +318,7 @@ impl PoolModel {
         if !(self.meets(nb, 2) || (self.meets(nb, 1) && self.meets(nb + sk, 3))) {
             return false;
         }
-        self.parent_certified.contains(&(slot, *h))
+        if weak { self.parent_certified_weak.contains(&(slot, *h)) } else { self.parent_certified.contains(&(slot, *h)) }
     }
 
     fn s2s_holds(&self, slot: u64) -> bool {
@@ -328,15 +337,22 @@ impl PoolModel {
     }
 
     fn block_cert_held(&self, b: &Bid) -> bool {
+        // genesis never carries a certificate; it counts as notarized (as for ready parents, C07)
+        if *b == GENESIS {
+            return true;
+        }
         if b.0 < self.watermark {
             return false;
         }
         self.held.values().any(|c| c.slot == b.0 && c.hash == Some(b.1) && matches!(c.kind, CK::Notar | CK::NotarFallback | CK::FastFinal))
     }
 
-    fn refresh_parent_certified(&mut self) {
-        let newly: Vec<Bid> = self.registered.iter().filter(|(b, p)| !self.parent_certified.contains(*b) && b.0 >= self.watermark && self.block_cert_held(p)).map(|(b, _)| *b).collect();
-        self.parent_certified.extend(newly);
+    fn refresh_parent_certified(&mut self, end_of_step: bool) {
+        let newly: Vec<Bid> = self.registered.iter().filter(|(b, p)| b.0 >= self.watermark && self.block_cert_held(p)).map(|(b, _)| *b).collect();
+        self.parent_certified_weak.extend(newly.iter().copied());
+        if end_of_step {
+            self.parent_certified.extend(newly);
+        }
     }
 
     // ---------------------------------------------------------------- C08 finality closure
@@ -478,12 +494,12 @@ impl PoolModel {
 
     // ---------------------------------------------------------------- steps
 
-    fn snapshot_s2(&self) -> (BTreeSet<Bid>, BTreeSet<u64>) {
+    fn snapshot_s2(&self, weak: bool) -> (BTreeSet<Bid>, BTreeSet<u64>) {
         let mut n = BTreeSet::new();
         let mut k = BTreeSet::new();
         for (&slot, _) in &self.slots {
             for h in self.blocks_voted(slot) {
-                if self.s2n_holds(slot, &h) {
+                if self.s2n_holds_with(slot, &h, weak) {
                     n.insert((slot, h));
                 }
             }
@@ -496,14 +512,17 @@ impl PoolModel {
 
     fn finish_step(&mut self, mut exp: StepExpect, touched: BTreeSet<u64>, pre_watermark: u64) -> StepExpect {
         // certificates in hand -> finality -> pruning
-        self.refresh_parent_certified();
+        self.refresh_parent_certified(false);
         // evaluate safe-to predicates before pruning (allowed) ...
-        let (n_before, k_before) = self.snapshot_s2();
+        let (n_before, k_before) = self.snapshot_s2(true);
         let fin = self.close_finality(&touched);
         exp.had_finalization = !fin.is_empty();
         exp.fin_events = fin;
-        self.refresh_parent_certified();
-        let (n_after, k_after) = self.snapshot_s2();
+        // ... and after it (required): a parent whose slot was pruned in this very step is no longer held
+        self.refresh_parent_certified(true);
+        let (n_after, k_after) = self.snapshot_s2(false);
+        let (n_after_weak, _) = self.snapshot_s2(true);
+        let n_before: BTreeSet<Bid> = n_before.union(&n_after_weak).copied().collect();
         let _ = pre_watermark;
         for b in n_before.union(&n_after) {
             if self.s2n_sent.contains(b) {
